@@ -342,3 +342,18 @@ def run(ctx: Context) -> None:  # noqa: F811
                             "shares with the caller (the `sni_hostname` override lives there)")
     _request_immutable(ctx, "C10.R11", "the mapping is the caller's own - a later handshake that reads `sni_hostname` (or the timeouts) from it sees the modified value, "
                                        "so the connection is authenticated against a different name than the one the caller asked for")
+
+
+
+_core_run_r12 = run
+
+
+def run(ctx: Context) -> None:  # noqa: F811
+    _core_run_r12(ctx)
+    from . import c11
+
+    if ctx.rep._borrow is not None:
+        return          # already running as a lender: no chains
+    with ctx.rep.borrow({"C11.R3": ("C10.R12", "TLS to the origin and the origin request go onto the tunnel stream only after the proxy said 2xx - otherwise that stream is a plain "
+                                                "connection to the PROXY, and the request is sent to a host it was never meant for:")}):
+        c11.run(ctx)
